@@ -233,9 +233,11 @@ def make_engines(kinds=("sql", "it", "it2")):
         if k.startswith("sql"):
             out[k] = sql.Engine(name=k)
             out[k].functions["vm_only_sql"] = lambda x: x * 2 + 1
+            out[k].functions["vm_both"] = lambda x: x * 2 + 1
         else:
             out[k] = VIterEngine(name=k)
             out[k].functions["vm_only_it"] = lambda x: x * 2 + 1
+            out[k].functions["vm_both"] = lambda x: x * 2 + 1
     return out
 
 
